@@ -524,6 +524,48 @@ template <class F, class T> static void fill ()
     fputs ((std::string ("{\"e\":\"aggfill\",\"fam\":\"") + F::name () + "\",\"T\":\"" + E<T>::tag () + "\",\"n\":" + std::to_string ((int) F::N) + ",\"how\":\"ctor(a)\",\"a\":" + jl (&sc, 1) + ",\"out\":" + jl (w, F::N) + "}\n").c_str (), o);
 }
 
+// scalar * Shear6<T> with a scalar of ANOTHER type (the reverse multiplication is a template over the scalar type): each
+// component is the product formed in the common type, converted once to the element type
+template <class S, class T> static void mixed_left_scalar (const S* as, int na, const T* hv)
+{
+    for (int k = 0; k < na; ++k)
+    {
+        Shear6<T> h (hv[0], hv[1], hv[2], hv[3], hv[4], hv[5]);
+        Shear6<T> r = as[k] * h;
+        T out[6]; for (int i = 0; i < 6; ++i) out[i] = r[i];
+        fputs ((std::string ("{\"e\":\"aggmix\",\"fam\":\"Shear6\",\"S\":\"") + E<S>::tag () + "\",\"T\":\"" + E<T>::tag () + "\",\"a\":" + jl (&as[k], 1) + ",\"h\":" + jl (hv, 6) + ",\"out\":" + jl (out, 6) + "}\n").c_str (), o);
+    }
+}
+// stream output of integer vectors whose components need the full width of the element type
+template <class F, class T> static void text_wide_int ()
+{
+    typedef typename F::A A;
+    const int N = F::N;
+    const T mx = std::numeric_limits<T>::max (), lo = std::numeric_limits<T>::lowest ();
+    const T vals[6] = {mx, lo, (T) (mx / 3), (T) (lo / 7), (T) (mx - 1), (T) ((mx >> 1) + 7)};
+    for (int k = 0; k < 3; ++k)
+    {
+        T v[16]; for (int i = 0; i < N; ++i) v[i] = vals[(i + 2 * k) % 6];
+        A a = F::make (v);
+        std::ostringstream ss; ss << a;
+        std::string txt = ss.str (), body = txt;
+        int opens = 0, closes = 0, lines = 1;
+        for (char c : txt) { if (c == '(') ++opens; if (c == ')') ++closes; if (c == '\n') ++lines; }
+        if (!body.empty () && body.front () == '(') body.erase (0, 1);
+        if (!body.empty () && body.back () == ')') body.pop_back ();
+        std::vector<std::string> toks; { std::istringstream ts (body); std::string t; while (ts >> t) toks.push_back (t); }
+        std::string s = std::string ("{\"e\":\"aggtext\",\"fam\":\"") + F::name () + "\",\"T\":\"" + E<T>::tag () + "\",\"n\":" + std::to_string (N) + ",\"rows\":1,\"opens\":" + std::to_string (opens) +
+                        ",\"closes\":" + std::to_string (closes) + ",\"lines\":" + std::to_string (lines) + ",\"first\":\"" + (txt.empty () ? std::string ("") : std::string (1, txt.front ())) + "\",\"last\":\"" +
+                        (txt.empty () ? std::string ("") : std::string (1, txt.back ())) + "\",\"tokens\":[";
+        for (size_t i = 0; i < toks.size (); ++i) s += std::string (i ? "," : "") + "\"" + toks[i] + "\"";
+        s += "],\"comps\":[";
+        std::string expect = "(";
+        for (int i = 0; i < N; ++i) { std::string cs = std::to_string ((long long) v[i]); s += std::string (i ? "," : "") + "\"" + cs + "\""; expect += (i ? " " : "") + cs; }
+        s += "],\"text\":\"" + txt + "\",\"joined\":\"" + expect + ")\"}\n";
+        fputs (s.c_str (), o);
+    }
+}
+
 template <class T> static void statics_vec ()
 {
     limits<FVec2<T>, T> (2); limits<FVec3<T>, T> (3); limits<FVec4<T>, T> (4);
@@ -628,6 +670,10 @@ int main (int argc, char** argv)
     fill<FColor3<unsigned char>, unsigned char> (); fill<FColor4<half>, half> ();
     tolerant<FVec3<int>, int> (); tolerant<FVec4<short>, short> ();
     statics_float<float> (); statics_float<double> ();
+    text_wide_int<FVec2<short>, short> (); text_wide_int<FVec3<int>, int> (); text_wide_int<FVec4<int64_t>, int64_t> (); text_wide_int<FVec2<int64_t>, int64_t> (); text_wide_int<FVec3<int64_t>, int64_t> ();
+    { const double ad[] = {0.5, 1.5, -2.25, 3.0}; const int hi[6] = {4, 8, -12, 16, 20, 100}; mixed_left_scalar<double, int> (ad, 4, hi);
+      const double af[] = {0.1, 1.0 / 3.0, 2.5, 1e-3}; const float hf[6] = {1.1f, -2.3f, 3.7f, 0.3f, 1e10f, 7.0f}; mixed_left_scalar<double, float> (af, 4, hf);
+      const float ag[] = {0.1f, 3.0f}; const double hd[6] = {1.1, -2.3, 3.7, 0.3, 1e10, 7.0}; mixed_left_scalar<float, double> (ag, 2, hd); }
     interop<float, double> (); interop<double, float> (); interop<int, short> (); interop<short, int> ();
     conv_float<float, double> (); conv_float<double, float> ();
     conv<float, double> (); conv<double, float> (); conv<int, float> (); conv<float, int> (); conv<short, int> (); conv<int, int64_t> (); conv<half, float> (); conv<float, half> (); conv<int64_t, double> ();
